@@ -236,6 +236,8 @@ func checkC08(c *Ctx) {
 	c08NoLockAcrossWait(c, cfns)
 	c08StopBeforeJoin(c)
 	c08RequestCancellable(c)
+	c08ChildIOOwned(c)
+	c08HandlerCtxLive(c)
 	c06DisconnectObserved(c) // server side of the same clause: a stream handler ends when its peer is gone, whatever context function is configured
 	c08GoroutineScope(c)
 	c08ArmsCloseAlike(c)
